@@ -17,7 +17,9 @@ EXTENDS Handover, Json, TLCExt
 
 TraceLog == TLCEval(JsonDeserialize("trace.json"))
 
-TraceChildren == TLCEval({TraceLog[i].c : i \in 1..Len(TraceLog)} \ {0})
+\* Children is given in the configuration ({1, 2, 3}: two scripted children and the later child of the
+\* replayer's epilogue).  Deriving it from TraceLog through a CONSTANT <- substitution re-reads the file for every
+\* reference (minutes for 30 k events).
 
 VARIABLE l
 tvars == <<vars, l>>
